@@ -32,8 +32,11 @@ NOTE = (
     "n <= 4 for symbolic momentum composition, n <= 6 for the weight lemmas; ChainGenerator nesting by the same per-step lemmas"
 )
 TECHNIQUE = "symbolic execution of phasespace.py on a symbolic tensorflow substitute with nondeterministic random stubs; z3 nlsat for kinematic identities and factor-wise weight bounds; path-forking integer reasoning (z3 LIA/NIA) for the refill loop"
-EXPLANATION = CLAIM
+CLAIM_EXTRA = "Nested cascades (ChainGenerator; depth 1-3, sibling and mixed structures): with the sub-generators as stubs returning symbolic four-vectors and the boost kernel uninterpreted, every final momentum is its own rest-frame momentum boosted by each ancestor system's momentum as produced in that ancestor's mother frame, innermost first (order and frames of the boosts). With masses given as Python floats that are not representable in single precision, energy conservation, the mass shells (2-body) and get_p with a float parent and a tensor daughter hold to 1e-9 (no intermediate result passes through float32)."
+NOTE_EXTRA = "ChainGenerator: structure of the boosts decided with an uninterpreted boost (the boost algebra is C11's), sub-generators stubbed; six cascade structures"
+EXPLANATION = CLAIM + " " + CLAIM_EXTRA
 FUNCTIONS = [
+    "tf_pwa/phasespace.py:ChainGenerator.generate", "tf_pwa/phasespace.py:_get_generator", "tf_pwa/phasespace.py:_restruct_pi", 
     "tf_pwa/phasespace.py:get_p", "tf_pwa/phasespace.py:PhaseSpaceGenerator.set_decay", "tf_pwa/phasespace.py:PhaseSpaceGenerator.get_mass_range",
     "tf_pwa/phasespace.py:PhaseSpaceGenerator.generate_mass", "tf_pwa/phasespace.py:PhaseSpaceGenerator.mass_importances", "tf_pwa/phasespace.py:PhaseSpaceGenerator.get_weight",
     "tf_pwa/phasespace.py:PhaseSpaceGenerator.generate_momentum", "tf_pwa/phasespace.py:PhaseSpaceGenerator.generate_momentum_i", "tf_pwa/phasespace.py:PhaseSpaceGenerator.generate",
